@@ -59,6 +59,10 @@ REFUTED = ['"with keep_comments every comment appears" is false for a comment wr
 CASE_TIMEOUT = 10.0
 
 
+# the environments the converter's documentation lists as equations (written down here, not read from its tables)
+EQUATION_ENVS = ['equation', 'equation*', 'eqnarray', 'eqnarray*', 'align', 'align*', 'multline', 'multline*', 'gather', 'gather*']
+
+
 class Gen:
     def __init__(self, rnd, custom=False):
         self.rnd = rnd
@@ -81,7 +85,7 @@ class Gen:
     def math(self, visible):
         m = self.mk('MTH')
         r = self.rnd
-        kind = r.choice(['$', '\\(', '$$', 'equation', 'align*'] + ([] if self.nobr else ['\\[']))
+        kind = r.choice(['$', '\\(', '$$', 'equation', 'align*', r.choice(EQUATION_ENVS)] + ([] if self.nobr else ['\\[']))
         body = m
         cm = None
         if r.random() < 0.25:
@@ -89,7 +93,7 @@ class Gen:
         elif r.random() < 0.2:
             # line separators other than a bare newline inside the formula source
             body = m + r.choice(['\r\nx', '\ry', ' \x0cz', '\x0bw', '\r\n y \r\nz', 'a\nb'])
-        if kind in ('equation', 'align*'):
+        if kind in EQUATION_ENVS:
             src = '\\begin{%s}%s\\end{%s}' % (kind, body, kind)
             self.maths.append((m, src, '\\begin{%s}' % kind, '\\end{%s}' % kind, True, visible))
         else:
